@@ -73,7 +73,7 @@ def gen_frame(rng, fmt, enc):
             fill = {"str": "a", "float": 1.5, "date": 0}.get(kind)
             vals = [fill if vecgen.is_na_val(kind, v) else v for v in vals]
         cols.append({"name": framegen.NAMES[j], "kind": kind, "vals": vals})
-    return {"n": n, "cols": cols}
+    return framegen.odd_names(rng, {"n": n, "cols": cols}, latin1=enc not in ("utf-8", "utf-16"))
 
 
 def gen_dicts(rng, fmt, enc):
@@ -123,6 +123,15 @@ def gen_cases(ctx):
         for look in (["2024-02-29", "2024-03-01", "", "2024-03-15"], ["007", "1e3", "10", ""], ["True", "False", "True", ""], ["null", "NaN", "None", "-"]):
             cases.append({"op": "file", "format": fmt, "suffix": rng.choice(SUFFIXES), "encoding": "utf-8", "sep": ",", "header": True,
                           "frame": {"n": 4, "cols": [{"name": "a", "kind": "int", "vals": [1, 2, 3, 4]}, {"name": "b", "kind": "str", "vals": look}]}})
+    # CSV: header x encoding x where the first line break falls, crossed (a reader that looks at "the first line" of the raw
+    # bytes meets a multi-byte encoding, or a line break inside a quoted string of the first row)
+    for header in (True, False):
+        for enc in ("utf-8", "latin-1", "utf-16", "utf-16-le", "utf-32"):
+            for first_row_break in (False, True):
+                for suf in ("", ".gz"):
+                    a = ["two\nlines", "plain"] if first_row_break else ["plain", "two\nlines"]
+                    cases.append({"op": "file", "format": "csv", "suffix": suf, "encoding": enc, "sep": rng.choice([",", ";"]), "header": header,
+                                  "frame": {"n": 2, "cols": [{"name": "a", "kind": "str", "vals": a}, {"name": "b", "kind": "int", "vals": [1, 2]}, {"name": "c", "kind": "float", "vals": [0.5, 1.5]}]}})
     n = 260 if ctx.tier == "quick" else 4000
     for _ in range(n):
         cases.append(gen_case(rng, ctx.tier))
@@ -290,11 +299,15 @@ def judge(ctx, case, obs, mouts):
     if obs.get("mutated"):
         ctx.violation("oracle", f"{fmt}:mutates", "writing changed the data frame", case, obs)
     names = [c["name"] for c in spec["cols"]]
+    if base == "csv" and not case["header"]:
+        # a CSV without a header line carries no names: the reader generates a, b, c, ... in column order
+        from dataiter import util
+        names = util.generate_colnames(len(names))
     if obs["colnames"] != names:
         ctx.violation("oracle", f"names-differ:{cls}", f"column names/order {obs['colnames']} != {names}", case, obs)
     else:
-        for c in spec["cols"]:
-            nm, kind = c["name"], c["kind"]
+        for c, nm in zip(spec["cols"], names):
+            kind = c["kind"]
             src = vecgen.canon_vals(kind, c["vals"])
             na_src = [vecgen.canon_is_na(kind, v) for v in src]
             if any(na_src) or (kind == "str" and any(ch in v for v in c["vals"] for ch in ',;"\n\t|')):
